@@ -60,6 +60,28 @@ Theorem C03_ctor_fast_out_R : forall ratio maxrel d chunk nch s, (1 <= chunk)%Z 
   @fast_out_new CR SR ratio maxrel d chunk nch = inr (RFastOut d s) -> exists blen, fo_wf blen s /\ ratio = oratio s.
 Proof. exact fo_ctor_wf_R. Qed.
 
+(** Non-ramped ratio changes between the calls (FastFixedIn).  [step_compatible rc r2] says that the new ratio [r2] is
+    compatible with the ratio [rc] in force during the last call: it is the exact complement of the two recorded
+    defect classes of known_findings.json (preroll-underflow: ceil(1/rc) - 1/r2 > 6 - reach; count-overrun:
+    (ceil(1/rc) - ceil(1/r2)) * r2 > 8).  Every history of valid calls and accepted, compatible ratio steps is safe,
+    consumes chunk_size frames per call and writes at most output_frames_next() frames. *)
+Theorem C03_fast_in_steps_safe_R : forall d ops rc (s : @astate CR SR (@FastFixedIn CR)),
+  fi_wfs d rc s -> steps_compatible d rc (FastInR.ratio s) ops ->
+  match fi_run_ops d s ops with
+  | Ok (s', log) => (exists rc', fi_wfs d rc' s') /\ Cz s' = Cz s /\ Forall (call_ok (Cz s)) log
+  | Err _ => True
+  | Panic _ | UB _ | Diverge => False
+  end.
+Proof. exact fi_history_steps_R. Qed.
+
+(* the hypotheses are met by every constructed resampler, and by genuine ratio changes in both directions *)
+Theorem C03_fast_in_steps_start_R : forall d (s : @astate CR SR (@FastFixedIn CR)), fi_wf s -> fi_wfs d (FastInR.ratio s) s.
+Proof. exact fi_wf_wfs. Qed.
+Theorem C03_step_up_compatible : step_compatible Septic 1 2.
+Proof. exact step_up_example. Qed.
+Theorem C03_step_down_compatible : step_compatible Septic 1 (/ 2).
+Proof. exact step_down_example. Qed.
+
 (** SincFixedIn (any interpolation type whose oversampling factor supports it, any kernel, any table):
     a valid call at constant ratio satisfies every assert of get_sinc_interpolated and every
     bounds check, keeps the invariant; so does every history of calls and set_chunk_size. *)
@@ -91,6 +113,21 @@ Theorem C03_ctor_sinc_in_R : forall ratio maxrel env ilen inbr chunk nch s,
   @sinc_in_new CR SR ratio maxrel env ilen inbr chunk nch = inr (RSincIn env s) ->
   si_wf env s /\ ratio = sratio s /\ sL s = ilen.
 Proof. exact si_ctor_wf_R. Qed.
+
+(** SincFixedIn through non-ramped ratio changes and set_chunk_size: [sstep_compatible L rc r2] is the complement of the
+    two recorded defect classes for sinc_len L (preroll-underflow: ceil(1/rc) - 1/r2 > L - 2; count-overrun:
+    (ceil(1/rc) - ceil(1/r2)) * r2 > 8).  [scall_ok (a, b, c, adv)] is  a = c /\ 0 <= b <= adv  with c the chunk size
+    and adv the output_frames_next() just before the call. *)
+Theorem C03_sinc_in_steps_safe_R : forall env ops rc (s : @astate CR SR (@SincFixedIn CR)),
+  si_wfs env rc s -> ssteps_compatible (sL s) rc (sratio s) ops ->
+  match si_run_ops env s ops with
+  | Ok (s', log) => (exists rc', si_wfs env rc' s') /\ sCmax s' = sCmax s /\ Forall scall_ok log
+  | Err _ => True
+  | Panic _ | UB _ | Diverge => False
+  end.
+Proof. exact si_history_steps_R. Qed.
+Theorem C03_sinc_in_steps_start_R : forall env (s : @astate CR SR (@SincFixedIn CR)), si_wf env s -> si_wfs env (sratio s) s.
+Proof. exact si_wf_wfs. Qed.
 
 (** SincFixedOut, constant ratio, any set_chunk_size schedule *)
 Theorem C03_sinc_out_call_safe_R : forall env blen (s : @astate CR SR (@SincFixedOut CR)) wi wo m,
@@ -225,3 +262,5 @@ Print Assumptions C03_fft_out_run_safe_R.
 Print Assumptions C03_ctor_fft_in_R.
 Print Assumptions C03_ctor_fft_out_R.
 Print Assumptions C03_ctor_fft_inout.
+Print Assumptions C03_fast_in_steps_safe_R.
+Print Assumptions C03_sinc_in_steps_safe_R.
